@@ -1030,11 +1030,14 @@ func (w *w1World) checkCommands(cl *w1SimClient) {
 		if c.ID == 0 || !c.Returned || !c.Proceed {
 			continue
 		}
-		// replies are owed only if the connection stayed open
-		if cl.isClosed() {
+		// replies are owed only if the connection stayed open until the settled point
+		// (the harness itself closes every remaining connection after it: this oracle
+		// runs at the very end, so "closed by now" is true for all of them)
+		if cl.isClosed() && (cl.closedSeq == 0 || w.endPhaseSeq == 0 || cl.closedSeq < w.endPhaseSeq) {
 			continue
 		}
 		s.Probe("nontrivial:C09")
+		s.Probe("c09_reply_owed_checked")
 		if replies[c.ID] == 0 {
 			s.Violate("C09", "missing-reply", "no reply for command: "+c.Kind, "client %d: %s (id %d, channel %q) was accepted, the connection stayed open, but no reply arrived", cl.idx, c.Kind, c.ID, c.Ch)
 		}
